@@ -370,6 +370,7 @@ var c09ServerPool = []C09Server{
 	{URL: "https://api.example.com/s/{region}", Vars: map[string]C09Var{"region": {Default: "eu"}}},
 	{URL: "{scheme}://api.example.com/s", Vars: map[string]C09Var{"scheme": {Default: "https", Enum: []string{"http", "https"}}}},
 	{URL: "http://example.com:{port}/p", Vars: map[string]C09Var{"port": {Default: "8443"}}},
+	{URL: "https://example.com/my%20api"}, {URL: "https://example.com/a%2Fb/v1"},
 }
 
 // one or two declared servers; the request goes to one of their prefixes (or, sometimes, elsewhere)
@@ -400,6 +401,10 @@ func c09AddServers(r *Rng, c *C09Case) {
 		}
 	case 2:
 		prefix += "x" // the prefix is not followed by a segment boundary
+	case 3:
+		if strings.Contains(prefix, "%2F") {
+			prefix = strings.ReplaceAll(prefix, "%2F", "/") // another path: an escaped slash is not a separator
+		}
 	}
 	c.URL = prefix + c.Path
 	c.strip()
